@@ -3,7 +3,7 @@
 (* the life of one SevenZipDecompressor, AESCompressor or AESDecompressor,    *)
 (* recorded by wrappers around the real methods (harness/probe.py).           *)
 (*   new   {kind: "dec", insize, block}                                       *)
-(*   call  {m, cur, d, t, res, buf, consumed}   one decompress(fp, m) call    *)
+(*   call  {m, cur, d, t, res, buf, consumed, h, dr}  one decompress(fp, m)   *)
 (*   mstart{size} / mend{}                      Worker.decompress per member  *)
 (*   new   {kind: "aesenc" | "aesdec"};  aes {n, b0, res, b1, flush}          *)
 EXTENDS Naturals, Integers, Sequences, Json, IOUtils, TLCExt, TLC
@@ -32,7 +32,10 @@ Call == /\ IsEvent("call") /\ kind = "dec"
                 /\ Ev.res = Ev.m /\ Ev.buf = buf - Ev.m
            ELSE /\ Ev.t >= 0
                 /\ Ev.d <= Min(insize - consumed, block)  \* _read_data asks for min(rest, block); a multi-volume file may return less
-                /\ (Min(insize - consumed, block) > 0 => Ev.d > 0)   \* ... but not nothing while packed bytes remain
+                \* ... but not nothing while packed bytes remain - unless a decoder that still held data of earlier input
+                \* (it honours max_length) was drained instead: then nothing is read
+                /\ IF Ev.h /\ Ev.dr > 0 THEN Ev.d = 0 /\ Ev.t = Ev.dr
+                   ELSE (Min(insize - consumed, block) > 0 => Ev.d > 0)
                 /\ Ev.res = Min(buf + Ev.t, Ev.m)
                 /\ Ev.buf = buf + Ev.t - Ev.res           \* the surplus is parked, nothing lost, nothing duplicated
         /\ Ev.consumed = consumed + Ev.d /\ Ev.consumed <= insize
